@@ -436,4 +436,9 @@ def run(repo='/repo', tier='quick'):
                         'equality of the two parses as values is not decided; multipart / urlencoded carry state is covered by C14 / C15']
     from . import sentinel
     sentinel.run(db, res, 'C03.g', lambda f: not f.loc.startswith('htp/htp_urlencoded.c') and not f.loc.startswith('htp/lzma'), 6)
+    from . import mirror
+    mirror.run(db, res, 'C03.h', [('htp_connp_req_clear_buffer', 'htp_connp_res_clear_buffer', None), ('htp_connp_req_consolidate_data', 'htp_connp_res_consolidate_data', None),
+                                  ('htp_connp_req_receiver_finalize_clear', 'htp_connp_res_receiver_finalize_clear', None), ('htp_connp_req_receiver_send_data', 'htp_connp_res_receiver_send_data', None),
+                                  ('htp_connp_req_receiver_set', 'htp_connp_res_receiver_set', None),
+                                  ('htp_connp_req_buffer', 'htp_connp_res_buffer', (('IF len == 0', 'return HTP_OK'), (), 'the request side returns early when there is nothing to buffer'))])
     return res
